@@ -1,7 +1,7 @@
 #!/bin/bash
 # seedimport.sh <propId> <name>: confirm a sub-agent's seeded change in a fresh scratch worktree and import it to /verif/seeded/<name>/
 set -u
-PID=$1; NAME=$2; SRC=/tmp/seed-$PID; W=/tmp/confirm-$PID-$$
+PID=$1; NAME=$2; SRC=${3:-/tmp/seed-$PID}; W=/tmp/confirm-$PID-$$
 export GOFLAGS=-mod=mod GOPROXY=off GOSUMDB=off GOTOOLCHAIN=local
 [ -f $SRC/_seed/patch.diff ] || { echo "no patch.diff"; exit 1; }
 git -C /repo worktree add -q --detach $W HEAD || exit 1
